@@ -541,6 +541,16 @@ fn tree(g: &mut Gen, depth: usize, plan: &Plan) -> Expr {
             };
         }
         Expr::bin(op, l, r)
+    } else if g.k.allow_random && c < 74 {
+        // only `ite` is lazy: an operand next to an absorbing zero is still evaluated (here: it draws)
+        let zero = match g.rng.gen_range(0..3) {
+            0 => Expr::Num(0),
+            1 => Expr::bin("-", Expr::Id("a".into()), Expr::Id("a".into())),
+            _ => Expr::un("!", Expr::Num(7)),
+        };
+        let draw = Expr::call("random", vec![Expr::Num(g.rng.gen_range(2..50))]);
+        let op = *["*", "&", "<<", ">>"].choose(&mut g.rng).unwrap();
+        if g.rng.gen_bool(0.6) { Expr::bin(op, zero, draw) } else { Expr::bin(op, draw, zero) }
     } else if c < 85 {
         let op = *["-", "!", "~"].choose(&mut g.rng).unwrap();
         Expr::un(op, tree(g, depth - 1, plan))
@@ -1272,6 +1282,25 @@ fn scale_run(wl: &str, run: usize, seed: u64) -> Vec<J> {
             opt.layouts = LayoutMode::Full;
             opt.mode = ValMode::InWidth;
             shuffle_layout = true;
+            (header, supplied, prog)
+        }
+        "manymissing" => {
+            // a header of more than 64 columns bound to a signal list that lacks one of the names (early, late, or none)
+            let n = 66 + variant % 6;
+            let header: Vec<String> = (0..n).map(|i| format!("s{i}")).collect();
+            let missing = match variant % 4 {
+                0 => Some(variant % (n - 64)),
+                1 => Some(64 + variant % (n - 64)),
+                2 => Some(n - 1),
+                _ => None,
+            };
+            let mut supplied: Vec<Sig> = (0..n).filter(|i| Some(*i) != missing).map(|i| if i % 3 == 2 { Sig::output(&format!("s{i}"), 4) } else { Sig::input(&format!("s{i}"), 4, Val::N(0)) }).collect();
+            if variant % 2 == 0 {
+                supplied.shuffle(&mut rng);
+            }
+            let prog = vec![row((0..n).map(|c| Entry::Num((c % 3) as i64)).collect()), row((0..n).map(|c| if c % 3 == 2 { Entry::X } else { Entry::Num(1) }).collect())];
+            opt.layouts = LayoutMode::Full;
+            opt.mode = ValMode::InWidth;
             (header, supplied, prog)
         }
         "manyreads" => {
